@@ -83,6 +83,8 @@ Configs ==
   (* _self: a macro called above its definition, and a macro of an extending template called from its blocks (the parent defines
      a macro of the same name with another body) *)
   \cup { [form |-> "self", k |-> k, na |-> k, use |-> u, nest |-> "none", special |-> sp, host |-> "entry"] : k \in 0..2, u \in {"print", "set2"}, sp \in {"before", "childmacro"} }
+  (* a block imported with use calls a macro of the template that defines it, through _self *)
+  \cup { [form |-> "self", k |-> 1, na |-> 1, use |-> "print", nest |-> "none", special |-> "useself", host |-> "entry"] }
   (* the same macro from-imported under two names in one tag: both names are bound *)
   \cup { [form |-> "from", k |-> 1, na |-> 1, use |-> "print", nest |-> "none", special |-> "fromtwice", host |-> "entry"] }
 
@@ -106,6 +108,7 @@ Program(c) ==
            ForS("", "v", ArrE(<<StrE("lib"), StrE("lib2"), StrE("lib")>>), NoE,
                 <<ImportS(NameE("v"), "L"), FromS(NameE("v"), << <<"m1", "q">> >>), PrintS(AttrCall(NameE("L"), "m1", <<IntE(1)>>)), PrintS(CallE("q", <<IntE(2)>>))>>, <<>>, FALSE),
            Text("$")>>
+    [] c.special = "useself" -> <<UseS(StrE("ulib"), <<>>), Text("^"), PrintS(CallE("block", <<StrE("h")>>)), Text("$")>>
     [] c.special = "fromtwice" -> <<FromS(StrE("lib"), << <<"m1", "xa">>, <<"m1", "xb">>, <<"m2", "m2">> >>), Text("^"),
                                     PrintS(CallE("xa", <<IntE(11)>>)), Text("|"), PrintS(CallE("xb", <<IntE(22)>>)), Text("$")>>
     [] c.special = "before" -> <<Text("^")>> \o UseOf(c, CallM(c.form, MName(c.k), Args(c.na))) \o <<Text("$")>> \o Defs("t")
@@ -127,6 +130,7 @@ Templates(c) == ("t" :> IF c.host = "childblock"
                         THEN Prelude(c.form) \o <<Text("^"), BlockS("body", <<Text("base")>>), Text("$")>>
                         ELSE Program(c))
                 @@ ("lib" :> Defs("lib")) @@ ("lib2" :> Lib2) @@ ("lib3" :> Lib3)
+                @@ ("ulib" :> <<MacroS("um", <<"p1">>, <<Text("um("), PrintS(NameE("p1")), Text(")")>>), BlockS("h", <<PrintS(AttrCall(NameE("_self"), "um", <<IntE(11)>>))>>)>>)
                 @@ ("cbase" :> <<MacroS("m0", <<>>, <<Text("P0")>>), MacroS("m1", <<"p1">>, <<Text("P1")>>), MacroS("m2", <<"p1", "p2">>, <<Text("P2")>>),
                                 Text("^"), BlockS("body", <<Text("base")>>), Text("$")>>)
                 @@ (IF c.host = "entry" THEN <<>>
@@ -138,6 +142,7 @@ Entry(c) == IF c.host = "entry" THEN "t" ELSE "top"
 Expected(c) ==
   CASE c.special = "nested" -> "^i1(1,)i1(2,)b2(3,4,)b2(5,,)f3()f3()$"
     [] c.special = "rebind" -> "^m1(11,)n1(11,)|m1(11,)n1(11,)|m1(1,)m1(2,)n1(1,)n1(2,)m1(1,)m1(2,)$"
+    [] c.special = "useself" -> "^um(11)$"
     [] c.special = "fromtwice" -> "^m1(11,)|m1(22,)$"
     [] c.special \in {"before", "childmacro"} -> "^" \o UseExp(c, Result(c.k, c.na)) \o "$"
     [] c.special = "outer" -> "^" \o UseExp(c, "<m1(" \o (IF c.na >= 1 THEN "11" ELSE "") \o "+,)>") \o "$"
